@@ -15,6 +15,7 @@ import (
 	"github.com/verily-src/fhirpath-go/fhirpath/internal/parser"
 	"github.com/verily-src/fhirpath-go/fhirpath/system"
 	"github.com/verily-src/fhirpath-go/internal/fhir"
+	"github.com/verily-src/fhirpath-go/internal/protofields"
 	"github.com/verily-src/fhirpath-go/internal/resource"
 	"github.com/verily-src/fhirpath-go/internal/slices"
 	"google.golang.org/protobuf/proto"
@@ -696,13 +697,18 @@ func enumFromStringable(msg protoreflect.Message, val stringable) (fhir.Base, er
 	container := msg.New()
 	valueField := container.Descriptor().Fields().ByName("value")
 	if valueField != nil && valueField.Kind() == protoreflect.EnumKind {
-		if strcase.ToKebab(strVal) != strVal {
-			return nil, fmt.Errorf("%w: %q", ErrInvalidEnum, strVal)
+		// The value has to be the FHIR code of one of the enum's values, spelled
+		// exactly ("entered-in-error", "POST", "<"), not merely a string that
+		// normalises to an enum name.
+		var enum protoreflect.EnumValueDescriptor
+		for i, values := 0, valueField.Enum().Values(); i < values.Len(); i++ {
+			if candidate := values.Get(i); candidate.Number() != 0 && protofields.CodeOfEnumValue(candidate) == strVal {
+				enum = candidate
+				break
+			}
 		}
-		enumValueStr := protoreflect.Name(strcase.ToScreamingSnake(strVal))
-		enum := valueField.Enum().Values().ByName(enumValueStr)
 		if enum == nil {
-			return nil, fmt.Errorf("%w: %q", ErrInvalidEnum, enumValueStr)
+			return nil, fmt.Errorf("%w: %q", ErrInvalidEnum, strVal)
 		}
 		enumVal := protoreflect.ValueOfEnum(protoreflect.EnumNumber(enum.Number()))
 		container.Set(valueField, enumVal)
